@@ -316,7 +316,7 @@ func (m *InterpModel) Call(mc *Machine, st *State, call ssa.CallInstruction, cal
 		return []Outcome{{Result: Unk, Apply: func(s *State) { s.Mon["raised"] = "T"; m.Emit(s, e) }}}, true
 	}
 	pkg := fnPkgPath(callee)
-	name := callee.Name()
+	name := fnName(callee)
 	// ---- environment
 	if pkg == modulePath+"/environment" {
 		switch name {
@@ -421,9 +421,9 @@ func (m *InterpModel) Call(mc *Machine, st *State, call ssa.CallInstruction, cal
 			}
 			return []Outcome{{Result: Unk, Apply: func(s *State) { m.Emit(s, e) }}}, true
 		case strings.HasPrefix(full, "fmt.Sprint"), full == "fmt.Errorf", full == "errors.New":
-			res := Sym(callee.Name() + "(" + strings.Join(m.variadic(mc, st, args), ",") + ")")
+			res := Sym(fnName(callee) + "(" + strings.Join(m.variadic(mc, st, args), ",") + ")")
 			if res.K != KSym {
-				res = Sym(callee.Name() + valName)
+				res = Sym(fnName(callee) + valName)
 			}
 			isErr := full != "fmt.Sprintf" && !strings.HasPrefix(full, "fmt.Sprint")
 			return []Outcome{{Result: res, Apply: func(s *State) {
@@ -455,11 +455,11 @@ func (m *InterpModel) Call(mc *Machine, st *State, call ssa.CallInstruction, cal
 			return []Outcome{{Result: Unk, Stop: true, Apply: func(s *State) { m.Emit(s, e) }}}, true
 		}
 		if strings.Contains(full, "strings.Builder).Write") || strings.Contains(full, "bytes.Buffer).Write") {
-			e := m.ev(in, "bufwrite", append([]string{callee.Name()}, argStrings(args[1:])...), "")
+			e := m.ev(in, "bufwrite", append([]string{fnName(callee)}, argStrings(args[1:])...), "")
 			return []Outcome{{Result: Unk, Apply: func(s *State) { m.Emit(s, e) }}}, true
 		}
 		// other library functions: pure
-		res := Sym(callee.Name() + "(" + strings.Join(argStrings(args), ",") + ")")
+		res := Sym(fnName(callee) + "(" + strings.Join(argStrings(args), ",") + ")")
 		if v, ok := call.(ssa.Value); ok {
 			if tup, ok := v.Type().(*types.Tuple); ok {
 				ts := make([]AV, tup.Len())
@@ -471,10 +471,10 @@ func (m *InterpModel) Call(mc *Machine, st *State, call ssa.CallInstruction, cal
 		}
 		return []Outcome{{Result: res}}, true
 	}
-	if m.MainMode && fnPkgName(callee) == "main" && !mainAnchors[callee.Name()] && len(st.Frames) < mc.MaxDepth-1 && !mc.onStack(st, callee) {
+	if m.MainMode && fnPkgName(callee) == "main" && !mainAnchors[fnName(callee)] && len(st.Frames) < mc.MaxDepth-1 && !mc.onStack(st, callee) {
 		return nil, false // helper of package main: inline
 	}
-	if m.MainMode && m.InlinePkg != "" && fnPkgName(callee) == m.InlinePkg && !m.InlineStop[callee.Name()] && len(st.Frames) < mc.MaxDepth-1 && !mc.onStack(st, callee) {
+	if m.MainMode && m.InlinePkg != "" && fnPkgName(callee) == m.InlinePkg && !m.InlineStop[fnName(callee)] && len(st.Frames) < mc.MaxDepth-1 && !mc.onStack(st, callee) {
 		return nil, false // small helper next to the explored function (e.g. a lexeme() accessor): inline
 	}
 	if m.MainMode {
@@ -504,7 +504,7 @@ func (m *InterpModel) Call(mc *Machine, st *State, call ssa.CallInstruction, cal
 		if !m.KeepAsEvent(callee) {
 			return nil, false // inline
 		}
-	} else if !coreLeaf[callee.Name()] && len(st.Frames) < mc.MaxDepth-1 && !mc.onStack(st, callee) {
+	} else if !coreLeaf[fnName(callee)] && len(st.Frames) < mc.MaxDepth-1 && !mc.onStack(st, callee) {
 		return nil, false // a helper that is not one of the interpreter's core value functions: look inside it
 	}
 	if !ii.Effectful[callee] && callee != ii.Interpret && callee != ii.FuncCall {
@@ -540,7 +540,7 @@ func (m *InterpModel) Call(mc *Machine, st *State, call ssa.CallInstruction, cal
 				if was {
 					e.KV["dirty"] = "T"
 				}
-				nm := callee.Name() + "(" + strings.Join(argStrings(args), ",") + ")" + valName
+				nm := fnName(callee) + "(" + strings.Join(argStrings(args), ",") + ")" + valName
 				var res AV = Sym(nm)
 				if tup != nil {
 					ts := make([]AV, tup.Len())
@@ -781,7 +781,7 @@ func (m *InterpModel) BackEdge(mc *Machine, st *State, from, to *ssa.BasicBlock)
 	if strings.HasPrefix(to.Comment, "rangeindex.loop") || strings.HasPrefix(to.Comment, "rangeiter.loop") || boundedCountingLoop(to) {
 		kind = "range"
 	}
-	e := &Event{Op: "backedge", Args: []string{kind}, Pos: m.p.InstrPos(to.Instrs[0]), Site: to.Parent().Name() + ":b" + fmt.Sprint(to.Index), KV: map[string]string{"kind": kind}}
+	e := &Event{Op: "backedge", Args: []string{kind}, Pos: m.p.InstrPos(to.Instrs[0]), Site: fnName(to.Parent()) + ":b" + fmt.Sprint(to.Index), KV: map[string]string{"kind": kind}}
 	if m.raised(st) {
 		e.KV["dirty"] = "T"
 	}
@@ -894,7 +894,6 @@ func sortedKeysOf(m map[string]bool) []string {
 	sort.Strings(out)
 	return out
 }
-
 
 // coreLeaf: the value-level functions of the interpreter that rules refer to by name; every other module
 // function without effects is treated as a refactoring helper and inlined.
